@@ -12,7 +12,7 @@
     [inc_end m g n] / [hh_end g n] = n lies on an included / on an H-H bond, [charge_changed a] = the two charges in typesGH differ.
     Theorems 13-17: the RadiusExpand helpers. *)
 From Coq Require Import List NArith ZArith Bool.
-From SK Require Import lib.LGraph lib.C01_GraphLemmas model.C01_Model model.C02_Model proof.C02_Proof proof.C02_Opts proof.C02_OptsEquiv proof.C02_Ctx proof.C02_Lre proof.C02_LreTrace proof.C02_Sides proof.C02_Sides2 proof.C02_CtxEquiv proof.C02_CtxCentre proof.C02_CtxNest.
+From SK Require Import lib.LGraph lib.C01_GraphLemmas model.C01_Model model.C01_Opts model.C02_Model model.C02_Store proof.C02_Store proof.C02_Proof proof.C02_Opts proof.C02_OptsEquiv proof.C02_Ctx proof.C02_Lre proof.C02_LreTrace proof.C02_Sides proof.C02_Sides2 proof.C02_CtxEquiv proof.C02_CtxCentre proof.C02_CtxNest.
 Import ListNotations.
 Local Open Scope Z_scope.
 
@@ -333,3 +333,37 @@ Theorem C02_ctx_of_ctx : forall g : its, wf g -> forall k k', (1 <= k)%nat -> (k
   geq (extract_k (extract_k g k') k) (extract_k g k).
 Proof. exact ctx_of_ctx. Qed.
 Print Assumptions C02_ctx_of_ctx.
+
+(** 27. ITS graphs whose top-level labels are (reactant, product) PAIRS (ITSConstruction.construct with its default store=True;
+        model/C02_Store.v: [snode] = labels that are scalars [Sc v] or pairs [Pr a b], [get_rc_S] = the instance of the generic
+        [get_rc_g]).  [flat] keeps the reactant side of every pair except that a pair element becomes "*": the only test that
+        looks at the element is  element == "H",  false for every pair.
+        (a) get_rc_S runs in lock step with get_rc_x on the flattened graph: same atoms, same bonds, flattened labels — so theorems
+            7-11, 18 describe its atoms and bonds;
+        (b) every selected label of a centre atom IS the ITS atom's label, whatever its shape (a pair stays that pair);
+        (c) on an ITS all of whose elements are pairs the centre bonds (disconnected=False) are exactly the included bonds:
+            H-H bonds are NOT forced there (witness (d)); the store=False twin keeps them. *)
+Theorem C02_rcS_flat : forall K d m (g : sits), gmapn flat (get_rc_S K d m g) = get_rc_x K d m (gmapn flat g).
+Proof. exact rcS_flat. Qed.
+Print Assumptions C02_rcS_flat.
+
+Theorem C02_rcS_labels : forall K d m (g : sits), NoDup (node_ids g) -> forall n b, label (get_rc_S K d m g) n = Some b ->
+  exists a, label g n = Some a /\
+    n_el b = pick (k_el K) (n_el a) /\ n_ch b = pick (k_ch K) (n_ch a) /\ n_amap b = pick (k_amap K) (n_amap a) /\
+    n_arom b = pick (k_arom K) (n_arom a) /\ n_hc b = pick (k_hc K) (n_hc a) /\ n_nb b = pick (k_nb K) (n_nb a) /\
+    (n_gh b = pick (k_gh K) (n_gh a) \/ n_gh b = Some (match n_gh a with Some t => t | None => HH_FALLBACK end)).
+Proof. exact rcS_labels. Qed.
+Print Assumptions C02_rcS_labels.
+
+Theorem C02_rcS_store_true_bonds : forall K m (g : sits), wf g ->
+  (forall n a, label g n = Some a -> exists p q, n_el a = Some (Pr p q)) ->
+  forall u v y, adj (get_rc_S K false m g) u v = Some y <->
+                exists x, adj g u v = Some x /\ include_x m x = true /\ y = out_edge x.
+Proof. exact rcS_store_true_bonds. Qed.
+Print Assumptions C02_rcS_store_true_bonds.
+
+Theorem C02_rcS_hh_not_forced :
+  gnodes (get_rc_S K_default false false (emb_S hhS)) = [] /\
+  length (gnodes (get_rc (gmap twin (fun e : iedge => e) hhS))) = 2%nat.
+Proof. exact rcS_hh_not_forced. Qed.
+Print Assumptions C02_rcS_hh_not_forced.
